@@ -117,50 +117,69 @@ func TestC06Lengths(t *testing.T) {
 	})
 }
 
-// TestC06Bind: EncryptBindMessage against the reference v1 decryptor.
+// TestC06Bind: EncryptBindMessage against the reference v1 decryptor. A case
+// makes 1..4 bind messages in a row (retries, key rotation, several
+// connections binding) and only then checks them all: a message stays what it
+// was when later ones are made.
 func TestC06Bind(t *testing.T) {
 	st := pbt.NewStats("TestC06Bind")
 	defer st.Flush()
 	rapid.Check(t, func(t *rapid.T) {
 		perm, keyClass := genAuthKey(t, "perm")
 		i64 := rapid.OneOf(rapid.SampledFrom([]int64{0, 1, -1, 1<<63 - 1, -1 << 63}), rapid.Int64())
-		inner := &crypto.BindAuthKeyInner{
-			Nonce:         i64.Draw(t, "nonce"),
-			TempAuthKeyID: i64.Draw(t, "tempKeyID"),
-			PermAuthKeyID: i64.Draw(t, "permKeyID"),
-			TempSessionID: i64.Draw(t, "session"),
-			// expires_at:int is 32-bit on the wire; callers pass a unix time.
-			ExpiresAt: int(rapid.OneOf(rapid.SampledFrom([]int32{0, 1, 1<<31 - 1}), rapid.Int32Range(0, 1<<31-1)).Draw(t, "expires")),
+		n := rapid.SampledFrom([]int{1, 1, 2, 3, 4}).Draw(t, "messages")
+		type made struct {
+			inner *crypto.BindAuthKeyInner
+			msgID int64
+			wire  []byte
+			seed  uint64
 		}
-		msgID := i64.Draw(t, "msgID")
-		s, seed := drawStream(t, "rand")
-		wire, err := crypto.EncryptBindMessage(s, perm, msgID, inner)
-		if err != nil {
-			t.Fatalf("EncryptBindMessage: %v", err)
+		var all []made
+		for k := 0; k < n; k++ {
+			inner := &crypto.BindAuthKeyInner{
+				Nonce:         i64.Draw(t, "nonce"),
+				TempAuthKeyID: i64.Draw(t, "tempKeyID"),
+				PermAuthKeyID: i64.Draw(t, "permKeyID"),
+				TempSessionID: i64.Draw(t, "session"),
+				// expires_at:int is 32-bit on the wire; callers pass a unix time.
+				ExpiresAt: int(rapid.OneOf(rapid.SampledFrom([]int32{0, 1, 1<<31 - 1}), rapid.Int32Range(0, 1<<31-1)).Draw(t, "expires")),
+			}
+			msgID := i64.Draw(t, "msgID")
+			s, seed := drawStream(t, "rand")
+			wire, err := crypto.EncryptBindMessage(s, perm, msgID, inner)
+			if err != nil {
+				t.Fatalf("EncryptBindMessage: %v", err)
+			}
+			all = append(all, made{inner, msgID, wire, seed}) // the returned slice itself, not a copy
 		}
-		m, err := ref.DecryptBindMessage([256]byte(perm.Value), wire)
-		if err != nil {
-			t.Fatalf("reference cannot decrypt bind message: %v (wire %d bytes)", err, len(wire))
+		var m ref.BindMessage
+		for k, x := range all {
+			var err error
+			m, err = ref.DecryptBindMessage([256]byte(perm.Value), x.wire)
+			if err != nil {
+				t.Fatalf("reference cannot decrypt bind message %d of %d: %v (wire %d bytes)", k+1, n, err, len(x.wire))
+			}
+			if m.MsgID != x.msgID {
+				t.Fatalf("message %d of %d: msg_id %d, want the request's %d", k+1, n, m.MsgID, x.msgID)
+			}
+			if m.SeqNo != 0 {
+				t.Fatalf("seq_no %d, want 0", m.SeqNo)
+			}
+			if m.PaddingLen < 0 || m.PaddingLen > 15 {
+				t.Fatalf("padding %d, want 0..15", m.PaddingLen)
+			}
+			in, inner := m.Inner, x.inner
+			if in.Nonce != inner.Nonce || in.TempAuthKeyID != inner.TempAuthKeyID || in.PermAuthKeyID != inner.PermAuthKeyID ||
+				in.TempSessionID != inner.TempSessionID || int(in.ExpiresAt) != inner.ExpiresAt {
+				t.Fatalf("bind_auth_key_inner mismatch in message %d of %d: got %+v want %+v", k+1, n, in, *inner)
+			}
+			// the key id in front is the permanent key's
+			if !bytes.Equal(x.wire[:8], perm.ID[:]) {
+				t.Fatalf("auth_key_id prefix %x, want %x", x.wire[:8], perm.ID)
+			}
 		}
-		if m.MsgID != msgID {
-			t.Fatalf("msg_id %d, want the request's %d", m.MsgID, msgID)
-		}
-		if m.SeqNo != 0 {
-			t.Fatalf("seq_no %d, want 0", m.SeqNo)
-		}
-		if m.PaddingLen < 0 || m.PaddingLen > 15 {
-			t.Fatalf("padding %d, want 0..15", m.PaddingLen)
-		}
-		in := m.Inner
-		if in.Nonce != inner.Nonce || in.TempAuthKeyID != inner.TempAuthKeyID || in.PermAuthKeyID != inner.PermAuthKeyID ||
-			in.TempSessionID != inner.TempSessionID || int(in.ExpiresAt) != inner.ExpiresAt {
-			t.Fatalf("bind_auth_key_inner mismatch: got %+v want %+v", in, *inner)
-		}
-		// the key id in front is the permanent key's
-		if !bytes.Equal(wire[:8], perm.ID[:]) {
-			t.Fatalf("auth_key_id prefix %x, want %x", wire[:8], perm.ID)
-		}
-		st.Case(fmt.Sprintf("%x/%d/%d/%d", perm.ID, msgID, inner.Nonce, seed), true,
-			fmt.Sprintf("perm=%x msgID=%d expires=%d pad=%d", perm.ID, msgID, inner.ExpiresAt, m.PaddingLen), keyClass, fmt.Sprintf("pad=%d", m.PaddingLen))
+		last := all[len(all)-1]
+		st.Case(fmt.Sprintf("%x/%d/%d/%d/%d", perm.ID, last.msgID, last.inner.Nonce, last.seed, n), true,
+			fmt.Sprintf("perm=%x messages=%d msgID=%d expires=%d pad=%d", perm.ID, n, last.msgID, last.inner.ExpiresAt, m.PaddingLen), keyClass, fmt.Sprintf("pad=%d", m.PaddingLen), fmt.Sprintf("messages=%d", n))
 	})
 }
